@@ -271,7 +271,11 @@ def main(tier, seed):
                             reported.add(key)
                             res.append((key, '%s result var %d declared integer, value %s at x=%s' % (c['type'], rvar, v, [str(t) for t in p])))
             # objective equality (constant / alias replacement must be exact)
+            # not judged when some intermediate value is huge: a periodic function of 1e23 is decided by the last bit of its argument
+            huge = any(v is not None and not isinstance(v, Fr) and (math.isinf(v) or abs(v) > 1e6) for v in x) or any(isinstance(v, Fr) and abs(v) > 10 ** 6 for v in x if v is not None)
             for pos, o in enumerate(tr.objs):
+                if huge:
+                    break
                 if o['i'] >= len(m.objs):
                     continue
                 dv = flat_eval.obj_value(o, x)
